@@ -103,6 +103,9 @@ def totalScript (b : TxBody) : Nat :=
 inductive TxEnc | base | witness
   deriving DecidableEq, Repr
 
+/-- the transaction without its witness data (what `SerializeNoWitness` describes) -/
+def stripWitness (t : Tx) : Tx := (t.1, t.2.1, t.2.2.1, List.replicate t.2.1.length [], t.2.2.2.2)
+
 /-! ### the explicit domain of a transaction (what `(tx e).wf` unfolds to; `Props.tx_wf_iff`) -/
 
 def TxInOk (i : TxIn) : Prop :=
